@@ -538,6 +538,7 @@ func genVectors(r *ObResult, n int, rng *rand.Rand, varW map[string]int) []map[s
 
 func (w *World) runConcrete(ob *Obligation, vec map[string]*big.Int) (string, []string) {
 	s := NewSession(w)
+	s.applyNoOverride(ob)
 	r := &ObResult{Ob: ob, KnownHits: map[string]*Violation{}, Reached: map[string]bool{}}
 	in := s.newInterp(ob, r, nil, nil)
 	in.concrete = vec
